@@ -296,6 +296,12 @@ func c01R3(p *core.Prog, r *core.Report) {
 				}
 			}
 		}
+		// always re-sliced: p = p[:min(len(p), remaining+1)]
+		if sl, ok := c.Common().Args[0].(*ssa.Slice); ok && sl.High != nil {
+			if dependsOnField(sl.High, modPath("internal/limitread"), "LimitRead", "Limit") {
+				bounded = true
+			}
+		}
 	})
 	r.Check(bounded, rule, fname, "bounded read", p.Pos(fn.Pos()), "the buffer given to the underlying reader is re-sliced when it is longer than the remaining limit")
 }
@@ -445,12 +451,13 @@ func c01R5(p *core.Prog, r *core.Report) {
 		if !ok {
 			continue
 		}
-		bo, ok := ifi.Cond.(*ssa.BinOp)
+		cnd, pol := core.StripNot(ifi.Cond, true)
+		bo, ok := cnd.(*ssa.BinOp)
 		if !ok || (bo.Op != token.NEQ && bo.Op != token.EQL) {
 			continue
 		}
 		mismatch := b.Succs[0]
-		if bo.Op == token.EQL {
+		if (bo.Op == token.NEQ) != pol {
 			mismatch = b.Succs[1]
 		}
 		reaches := false
@@ -466,8 +473,25 @@ func c01R5(p *core.Prog, r *core.Report) {
 			from := false
 			for _, side := range []ssa.Value{bo.X, bo.Y} {
 				for _, oc := range originCalls(side) {
-					if cal := core.Callee(oc); cal != nil && cal.Name() == "FromBytes" {
+					cal := core.Callee(oc)
+					if cal != nil && cal.Name() == "FromBytes" {
 						from = true
+					}
+					// the same computed by hand: a Digester whose hash was fed the Data field
+					if cal != nil && cal.Name() == "Digest" && core.IsNamed(core.CallArg(oc, 0).Type(), "github.com/opencontainers/go-digest", "Digester") {
+						fed := false
+						core.Calls(fn, func(w ssa.CallInstruction) {
+							if wc := core.Callee(w); wc != nil && wc.Name() == "Write" {
+								for _, a := range w.Common().Args {
+									if dependsOnField(a, modPath("types/descriptor"), "Descriptor", "Data") {
+										fed = true
+									}
+								}
+							}
+						})
+						if fed {
+							from = true
+						}
 					}
 				}
 			}
